@@ -92,14 +92,14 @@ Definition no_ping (s : gw_state) : Prop := forall tm p, In tm (gw_timers s) -> 
 
 Lemma TI_mono cfg PF B L U t0 s B' L' U' :
   TI cfg PF B L U t0 s -> B <= B' -> L <= L' ->
-  (U' = U \/ no_ping s \/ exists u u', U = Some u /\ U' = Some u' /\ u <= u') ->
+  (PF -> U' = U \/ no_ping s \/ exists u u', U = Some u /\ U' = Some u' /\ u <= u') ->
   TI cfg PF B' L' U' t0 s.
 Proof.
   intros H HB HL HU. destruct H. constructor; try assumption.
   - intros g Hg. destruct (ti_conn0 g Hg) as (A1 & A2 & tm & A3 & A4 & A5).
     split; [exact A1|]. split; [exact A2|]. exists tm. repeat split; try assumption. lia.
   - intros tm g mid q st k m sn n Hin Hk Ho. specialize (ti_retry0 tm g mid q st k m sn n Hin Hk Ho). nia.
-  - intros HP tm p Hin Hk. destruct HU as [->|[Hn|(u & u' & -> & -> & Hle)]].
+  - intros HP tm p Hin Hk. destruct (HU HP) as [->|[Hn|(u & u' & -> & -> & Hle)]].
     + apply (ti_ping0 HP tm p Hin Hk).
     + exfalso. exact (Hn tm p Hin Hk).
     + destruct (ti_ping0 HP tm p Hin Hk) as (u0 & tc & E & A1 & A2 & A3). inversion E; subst u0.
@@ -586,27 +586,35 @@ Proof.
   destruct (gw_objs s !! g') as [[mq' a'| | |]|] eqn:E; try discriminate. intros H. inversion H; subst. split; [reflexivity|exact E].
 Qed.
 
+Definition no_end (o : list gw_out) : Prop := forall te, ~ In (OutEnd te) o.
+Lemma no_end_app a b : no_end a -> no_end b -> no_end (a ++ b).
+Proof. intros Ha Hb te Hin. apply in_app_or in Hin. destruct Hin; [eapply Ha|eapply Hb]; eassumption. Qed.
+Lemma no_end_nil : no_end [].
+Proof. intros te []. Qed.
+
 Section Walk.
 Context (cfg : gw_cfg) (PF : Prop) (B L : N) (U : option N) (t0 : N).
 Notation TI' := (TI cfg PF B L U t0).
 
-Definition PT (r : R) : Prop := TI' (st_of r).
+(* the handler keeps the invariant and does not report the end of the session *)
+Definition PT (r : R) : Prop := TI' (st_of r) /\ no_end (outs_of r).
 
-Lemma pt_ok s o : TI' s -> PT (ok s o).
-Proof. intros H. exact H. Qed.
-Lemma pt_stop s o e : TI' s -> PT (stop s o e).
-Proof. intros H. exact H. Qed.
+Lemma pt_ok s : TI' s -> PT (ok s []).
+Proof. intros H. split; [exact H|apply no_end_nil]. Qed.
+Lemma pt_stop s e : TI' s -> PT (stop s [] e).
+Proof. intros H. split; [exact H|apply no_end_nil]. Qed.
 Lemma pt_mq_send s m : TI' s -> PT (mq_send s m).
-Proof. intros H. exact H. Qed.
+Proof. intros H. split; [exact H|]. intros te [E|[]]. discriminate E. Qed.
 Lemma pt_sn_send_owned s o p : TI' s -> PT (sn_send_owned s o p).
 Proof.
   intros H. unfold sn_send_owned. destruct (gw_st s); try destruct (len (pack p) <=? MaxPacketLen);
-    unfold PT; cbn [st_of ok stop fst]; ti_tac.
+    (split; [cbn [st_of ok stop fst]; ti_tac|cbn; try apply no_end_nil; intros te [E|[]]; discriminate E]).
 Qed.
 Lemma pt_andthen r g : PT r -> (forall s1, TI' s1 -> PT (g s1)) -> PT (andthen r g).
 Proof.
-  intros Hr Hg. destruct r as [[s1 o1] [|e]]; cbn [andthen]; [|exact Hr].
-  specialize (Hg s1 Hr). destruct (g s1) as [[s2 o2] res]. exact Hg.
+  intros [Hr Ho] Hg. destruct r as [[s1 o1] [|e]]; cbn [andthen]; [|split; assumption].
+  specialize (Hg s1 Hr). destruct (g s1) as [[s2 o2] res]. destruct Hg as [Hg1 Hg2]. split; [exact Hg1|].
+  apply no_end_app; assumption.
 Qed.
 
 Ltac pt_auto :=
@@ -615,8 +623,8 @@ Ltac pt_auto :=
          | |- PT (sn_send _ _) => apply pt_sn_send_owned
          | |- PT (sn_send_owned _ _ _) => apply pt_sn_send_owned
          | |- PT (mq_send _ _) => apply pt_mq_send
-         | |- PT (ok _ _) => apply pt_ok
-         | |- PT (stop _ _ _) => apply pt_stop
+         | |- PT (ok _ []) => apply pt_ok
+         | |- PT (stop _ [] _) => apply pt_stop
          | |- PT (match ?x with _ => _ end) => destruct x eqn:?
          | |- PT (if ?x then _ else _) => destruct x eqn:?
          end.
@@ -792,30 +800,30 @@ Proof.
   pose proof (new_topic_id_req cfg s) as Hn. destruct (new_topic_id cfg s) as [s1 r]. cbn [fst] in Hn.
   assert (H1 : TI' s1) by (eapply TI_req; eassumption).
   assert (Hbp : forall S mid st data snpub, TI' S -> plain_txn (TxBrokerPub mid qos st data snpub 0) ->
-            forall (f : gw_state -> gw_state), (forall S', req S' (f S')) ->
+            forall (f : gw_state -> N -> gw_state), (forall S' g', req S' (f S' g')) ->
             PT (let (s0, g) := new_obj S (TxBrokerPub mid qos st data snpub 0) in
-                bp_proceed cfg (f s0) g mid qos st data snpub)).
+                bp_proceed cfg (f s0 g) g mid qos st data snpub)).
   { intros S mid st data snpub HS Hpl f Hf.
     pose proof (TI_new_obj cfg PF B L U t0 S _ HS Hpl) as HN. unfold new_obj in *. cbn [fst] in HN.
     apply bp_proceed_pt.
     - eapply TI_req; [apply Hf|exact HN].
     - unfold is_bp. destruct (Hf (S <| gw_objs := <[gw_next_obj S:=TxBrokerPub mid qos st data snpub 0]> (gw_objs S) |>
-                                     <| gw_next_obj := gw_next_obj S + 1 |>)) as (_ & _ & _ & _ & _ & _ & _ & _ & _ & Eo).
+                                     <| gw_next_obj := gw_next_obj S + 1 |>) (gw_next_obj S)) as (_ & _ & _ & _ & _ & _ & _ & _ & _ & Eo).
       rewrite Eo. cbn. rewrite lookup_insert. eauto 10.
     - destruct data; [exact I|contradiction]. }
   destruct (if is_short_topic topic then _ else _) as [[tid tit]|]; cbv beta iota zeta.
   - destruct ((qos =? 0) && negb false); [apply pt_sn_send_owned, H|].
     destruct (if qos =? 0 then _ else _) as [mid|]; [|apply pt_stop, H].
     destruct (2 <? qos); [apply pt_stop, H|].
-    eapply (Hbp s mid _ _ None H) with (f := fun s0 => s0 <| gw_by_id := <[mid:=gw_next_obj s]> (gw_by_id s0) |>);
-      [exact I|intros S'; repeat split].
+    eapply (Hbp s mid _ _ None H) with (f := fun s0 g => s0 <| gw_by_id := <[mid:=g]> (gw_by_id s0) |>);
+      [exact I|intros S' g'; repeat split].
   - rewrite andb_false_r.
     destruct (if qos =? 0 then _ else _) as [mid|]; [|apply pt_stop, H].
     destruct (2 <? qos); [apply pt_stop, H|].
     destruct r as [i|]; [|apply pt_stop, H1].
     eapply (Hbp s1 mid _ _ _ H1)
-      with (f := fun s0 => note_handed (s0 <| gw_by_id := <[mid:=gw_next_obj s1]> (gw_by_id s0) |>) i topic);
-      [exact I|intros S'; repeat split].
+      with (f := fun s0 g => note_handed (s0 <| gw_by_id := <[mid:=g]> (gw_by_id s0) |>) i topic);
+      [exact I|intros S' g'; repeat split].
 Qed.
 
 Lemma handle_mq_pt s m : TI' s -> PT (handle_mq cfg s m).
@@ -858,8 +866,9 @@ Proof.
     match goal with |- context [sn_send_owned ?S0 ?ow pk] =>
       pose proof (pt_sn_send_owned S0 ow pk H1) as HP; destruct (sn_send_owned S0 ow pk) as [[s1 o] [|e]] end.
     + exact HP.
-    + apply pt_ok. apply TI_finish_obj. exact HP.
-  - unfold mq_send, ok, andthen, PT. cbn [st_of fst]. apply TI_arm; [exact H| | |].
+    + destruct HP as [HP1 HP2]. split; [apply TI_finish_obj; exact HP1|exact HP2].
+  - unfold mq_send, ok, andthen, PT. cbn [st_of outs_of fst snd]. split; [|intros te [E|[]]; discriminate E].
+    apply TI_arm; [exact H| | |].
     + intros g Hk. discriminate Hk.
     + intros g mid q st ak m sn n Hk. discriminate Hk.
     + intros HP p0 Hk. inversion Hk; subst p0. apply (Hp HP p eq_refl).
@@ -1045,12 +1054,9 @@ Definition mq_allowed (cfg : gw_cfg) (L : N) (U : option N) : N :=
   N.max (match U with Some u => u | None => 0 end) (L + (retry_count cfg + 1) * retry_delay cfg).
 Definition mq_bound (cfg : gw_cfg) (PF : Prop) (L : N) (U : option N) (o : list gw_out) : Prop :=
   PF -> forall tau m, In (OutMq tau m) o -> tau <= mq_allowed cfg L U.
-Definition no_end (o : list gw_out) : Prop := forall te, ~ In (OutEnd te) o.
 
 Lemma mq_bound_app cfg PF L U a b : mq_bound cfg PF L U a -> mq_bound cfg PF L U b -> mq_bound cfg PF L U (a ++ b).
 Proof. intros Ha Hb HP tau m Hin. apply in_app_or in Hin. destruct Hin; [eapply Ha|eapply Hb]; eassumption. Qed.
-Lemma no_end_app a b : no_end a -> no_end b -> no_end (a ++ b).
-Proof. intros Ha Hb te Hin. apply in_app_or in Hin. destruct Hin; [eapply Ha|eapply Hb]; eassumption. Qed.
 
 Lemma begin_end_quiet cfg PF L U s c x y : mq_bound cfg PF L U (snd (begin_end s c x y)) /\ no_end (snd (begin_end s c x y)).
 Proof.
@@ -1064,8 +1070,8 @@ Lemma fire_step cfg PF B L U t0 s tm :
   mq_bound cfg PF L U (outs_of (fire cfg (pre s tm) (tm_kind tm))) /\
   no_end (outs_of (fire cfg (pre s tm) (tm_kind tm))) /\
   match fire cfg (pre s tm) (tm_kind tm) with
-  | (S, o, HOk) => TI cfg PF B L U (tm_at tm) S /\ gw_connect S = gw_connect s
-  | (S, o, HEnd c) => TB (tm_at tm) S
+  | (s1, o, HOk) => TI cfg PF B L U (tm_at tm) s1 /\ gw_connect s1 = gw_connect s
+  | (s1, o, HEnd c) => TB (tm_at tm) s1
   end.
 Proof.
   intros H Hm. apply min_timer_spec in Hm. destruct Hm as [Hin Hmin].
@@ -1090,12 +1096,12 @@ Proof.
     + (* a stale connect timer *)
       unfold fire in Hf. change (gw_objs (pre s tm)) with (gw_objs s) in Hf.
       destruct (gw_objs s !! g) eqn:Hobj; inversion Hf; subst. split; [|reflexivity].
-      apply TI_pre; try assumption.
+      apply (TI_pre cfg PF B L U t0); try assumption.
       * intros g0 Hg0 E. rewrite Hk in E. inversion E; subst g0.
         destruct (ti_conn _ _ _ _ _ _ _ H g Hg0) as (_ & (mq & a & A) & _). congruence.
       * intros p. rewrite Hk. discriminate.
     + assert (H0 : TI cfg PF B L U (tm_at tm) (pre s tm)).
-      { apply TI_pre; try assumption; [intros g0 _|intros p]; rewrite Hk; discriminate. }
+      { apply (TI_pre cfg PF B L U t0); try assumption; [intros g0 _|intros p]; rewrite Hk; discriminate. }
       destruct (ti_timed _ _ _ _ _ _ _ H tm g Hin Hk) as (_ & _ & A3).
       split.
       * pose proof (fire_pt cfg PF B L U (tm_at tm) (pre s tm) (TmTimed g) H0) as HP. rewrite Hf in HP. apply HP.
@@ -1103,7 +1109,7 @@ Proof.
         -- intros _ p E. discriminate E.
       * apply (fire_connect cfg _ _ _ _ Hf). intros g0 E. inversion E; subst g0. exact A3.
     + assert (H0 : TI cfg PF B L U (tm_at tm) (pre s tm)).
-      { apply TI_pre; try assumption; [intros g0 _|intros p]; rewrite Hk; discriminate. }
+      { apply (TI_pre cfg PF B L U t0); try assumption; [intros g0 _|intros p]; rewrite Hk; discriminate. }
       split.
       * pose proof (fire_pt cfg PF B L U (tm_at tm) (pre s tm) (TmRetry g) H0) as HP. rewrite Hf in HP. apply HP.
         -- intros g0 mid q st ak m sn n E Hobj. inversion E; subst g0.
@@ -1111,7 +1117,7 @@ Proof.
         -- intros _ p E. discriminate E.
       * apply (fire_connect cfg _ _ _ _ Hf). intros g0 E. discriminate E.
     + assert (H0 : TI cfg PF B L U (tm_at tm) (pre s tm)).
-      { apply TI_pre; try assumption; [intros g0 _|intros p0]; rewrite Hk; discriminate. }
+      { apply (TI_pre cfg PF B L U t0); try assumption; [intros g0 _|intros p0]; rewrite Hk; discriminate. }
       split.
       * pose proof (fire_pt cfg PF B L U (tm_at tm) (pre s tm) (TmPing p) H0) as HP. rewrite Hf in HP. apply HP.
         -- intros g0 mid q st ak m sn n E. discriminate E.
@@ -1134,14 +1140,12 @@ Definition RT (cfg : gw_cfg) (PF : Prop) (B L : N) (U : option N) (s : gw_state)
            (s' : gw_state) (o : list gw_out) : Prop :=
   gw_now s <= gw_now s' /\ gw_now s' <= t /\ mq_bound cfg PF L U o /\
   ( (gw_ended s' = true /\ exists te, In (OutEnd te) o /\ te <= t /\ (gw_connect s <> None -> te <= B))
-  \/ (no_end o /\ gw_ended s' = false /\ exists te, gw_ending s' = Some te /\ te <= gw_now s' + 100 /\
+  \/ (no_end o /\ gw_ended s' = false /\ exists te, gw_ending s' = Some te /\ gw_now s' <= te <= gw_now s' + 100 /\
         (gw_connect s <> None -> te <= B))
   \/ (no_end o /\ TI cfg PF B L U (gw_now s') s' /\ (gw_connect s <> None -> gw_connect s' <> None)) ).
 
 Lemma mq_bound_nil cfg PF L U : mq_bound cfg PF L U [].
 Proof. intros _ tau m []. Qed.
-Lemma no_end_nil : no_end [].
-Proof. intros te []. Qed.
 
 Lemma run_timers_spec cfg PF B L U t fuel : forall s t0,
   TI cfg PF B L U t0 s -> t0 <= t ->
@@ -1168,7 +1172,7 @@ Proof.
     split; [apply mq_bound_app; assumption|]. rewrite Hc in I4.
     destruct I4 as [(E1 & te & E2 & E3 & E4)|[(E0 & E1 & te & E2 & E3 & E4)|(E0 & E1 & E2)]].
     + left. split; [exact E1|]. exists te. split; [apply in_or_app; right; exact E2|]. split; assumption.
-    + right. left. split; [apply no_end_app; assumption|]. split; [exact E1|]. exists te. repeat split; assumption.
+    + right. left. split; [apply no_end_app; assumption|]. split; [exact E1|]. exists te. split; [exact E2|]. split; [exact E3|exact E4].
     + right. right. split; [apply no_end_app; assumption|]. split; assumption.
   - destruct (begin_end_spec (tm_at tm) S c false false Hres) as (B1 & B2 & B3 & B4 & te & B5 & B6).
     destruct (begin_end_quiet cfg PF L U S c false false) as [Q1 Q2].
@@ -1182,7 +1186,7 @@ Proof.
       split; [exact B1|]. exists te. split; [exact B5|]. split; [lia|exact HteB].
     + cbn [run_timers]. rewrite B5. destruct (te <=? t) eqn:Hte.
       * apply N.leb_le in Hte. cbn [fst snd]. unfold RT. cbn. split; [lia|]. split; [exact Hte|].
-        split; [apply mq_bound_app; [apply mq_bound_app; assumption|apply mq_bound_nil]|].
+        split; [apply mq_bound_app; [apply mq_bound_app; assumption|intros _ tau m [E|[]]; discriminate E]|].
         left. split; [reflexivity|]. exists te. split; [apply in_or_app; right; left; reflexivity|]. split; assumption.
       * cbn [fst snd]. rewrite app_nil_r. unfold RT. split; [lia|]. split; [lia|].
         split; [apply mq_bound_app; assumption|]. right. left. split; [apply no_end_app; assumption|].
